@@ -47,6 +47,12 @@ func RunFree(sc *Scenario) (events []Event, fatal string) {
 	if sc.Cfg.Q >= 0 {
 		opts = append(opts, mpb.WithQueueLen(sc.Cfg.Q))
 	}
+	if sc.Cfg.UWG && len(sc.Clients) > 1 {
+		r.uwg = &sync.WaitGroup{}
+		r.uwgDone = map[int]bool{}
+		r.uwg.Add(len(sc.Clients) - 1)
+		opts = append(opts, mpb.WithWaitGroup(r.uwg))
+	}
 	if sc.Cfg.Width > 0 {
 		opts = append(opts, mpb.WithWidth(sc.Cfg.Width))
 	}
@@ -206,11 +212,15 @@ func (r *run) freeClient(c int, rng *rand.Rand) {
 		case 1:
 			time.Sleep(time.Duration(rng.Intn(1500)) * time.Microsecond)
 		}
+		if op.Op == "wait" {
+			r.workerDone(c)
+		}
 		r.exec(c, i, op)
 		r.mu.Lock()
 		r.clPC[c] = i + 1
 		r.mu.Unlock()
 	}
+	r.workerDone(c)
 	r.mu.Lock()
 	r.clDone[c] = true
 	r.mu.Unlock()
